@@ -223,3 +223,74 @@ def only_remote_value_process_reads_decoded_data():
 ASSUMPTIONS = [
     "datapoint transcoders are pure functions of the payload (C07/C08)",
 ]
+
+
+# ------------------------------------------------------------------ bounded stand-in: a decoded value shared by several devices
+# With a table entry one decoded object is handed to every remote value on the address; without it each decodes
+# its own. A consumer that updates a remembered value in place then changes what *other* devices report. The
+# frame condition "nobody mutates a decoded value" is not syntactic; it is decided here for the devices that
+# merge partially valid structured values (xyY and RGBW lights), natively.
+
+import itertools  # noqa: E402
+
+from pyvc.api import standin  # noqa: E402
+
+
+def _shared_value_cases(tier):
+    xyy = [((0.3, 0.4), 100), (None, 200), ((0.1, 0.2), None), ((0.5, 0.5), 0), (None, 1)]
+    n = 3 if tier == "quick" else 4
+    for length in range(1, n + 1):
+        for steps in itertools.product(itertools.product(range(len(xyy)), (0, 1)), repeat=length):
+            yield ("xyy", steps)
+    rgbw = [(10, 20, 30, 40), (None, None, None, 200), (0, 0, 0, 0), (255, None, 0, None)]
+    for length in range(1, n + 1):
+        for steps in itertools.product(itertools.product(range(len(rgbw)), (0, 1)), repeat=length):
+            yield ("rgbw", steps)
+
+
+@standin("C38", cases=_shared_value_cases, kind="enum-native", exhaustive=True, bound="two lights sharing one colour address (the second also listening on a state address of its own), xyY (5 full / partial values) and RGBW (4 values): every history of up to 3 (quick) / 4 (thorough) writes to the shared or the own address, replayed with and without a table entry for both addresses: every light reports the same colour in both runs after every step")
+def devices_sharing_an_address_see_the_same_with_and_without_the_table(kind, steps):
+    import asyncio
+
+    from xknx import XKNX
+    from xknx.devices import Light
+    from xknx.dpt import DPTColorRGBW, DPTColorXYY
+    from xknx.dpt.dpt_242 import XYYColor
+    from xknx.dpt.dpt_251 import RGBWColor
+    from xknx.telegram import TelegramDirection
+
+    xyy = [((0.3, 0.4), 100), (None, 200), ((0.1, 0.2), None), ((0.5, 0.5), 0), (None, 1)]
+    rgbw = [(10, 20, 30, 40), (None, None, None, 200), (0, 0, 0, 0), (255, None, 0, None)]
+
+    async def replay(with_table):
+        xknx = XKNX()
+        if kind == "xyy":
+            a = Light(xknx, "a", group_address_switch="1/0/1", group_address_xyy_color="1/1/1", group_address_xyy_color_state="1/1/2")
+            b = Light(xknx, "b", group_address_switch="1/0/2", group_address_xyy_color="1/1/1")
+            dpt, value_of = DPTColorXYY, (lambda i: XYYColor(*xyy[i]))
+            state = lambda d: (d.current_xyy_color, d.xyy_color.value)  # noqa: E731
+        else:
+            a = Light(xknx, "a", group_address_switch="1/0/1", group_address_rgbw="1/1/1", group_address_rgbw_state="1/1/2")
+            b = Light(xknx, "b", group_address_switch="1/0/2", group_address_rgbw="1/1/1")
+            dpt, value_of = DPTColorRGBW, (lambda i: RGBWColor(*rgbw[i]))
+            state = lambda d: (d.current_color, d.rgbw.value)  # noqa: E731
+        for d in (a, b):
+            xknx.devices.async_add(d)
+        if with_table:
+            number = "242.600" if kind == "xyy" else "251.600"
+            xknx.group_address_dpt.set({"1/1/1": number, "1/1/2": number})
+        seen = []
+        for i, own in steps:
+            t = Telegram(destination_address=GroupAddress("1/1/2" if own else "1/1/1"), direction=TelegramDirection.INCOMING, payload=GroupValueWrite(dpt.to_knx(value_of(i))))
+            xknx.group_address_dpt.set_decoded_data(t)
+            assert (t.decoded_data is not None) == with_table, "the table entry was not used"
+            xknx.devices.process(t)
+            seen.append((repr(state(a)), repr(state(b))))
+        return seen
+
+    async def go():
+        plain = await replay(False)
+        eager = await replay(True)
+        assert plain == eager, (kind, steps, plain, eager)
+
+    asyncio.run(go())
